@@ -328,8 +328,10 @@ class Slicer:
         return root in owner.nearsql_roots or "near_sql" in t or root in ("near_sql", "subsql", "sub_sql") or "near_sql" in chain or "sub_sql" in chain \
             or any(c.startswith("sub_sql") for c in chain)
 
-    @staticmethod
-    def _extend(l: Leaf, chain) -> Leaf:
+    def _extend(self, l: Leaf, chain) -> Leaf:
+        if l[0] == "nsfield" and chain and chain[-1] in self.nearsql_fields:
+            # a field of a NearSQL object reached through a container / alias: the field read is the last one named
+            return ("nsfield", chain[-1])
         if l[0] == "field":
             return ("field", l[1], l[2] + "." + ".".join(chain))
         if l[0] == "param":
@@ -360,6 +362,12 @@ class Slicer:
         fn = c.func
         L = lambda x, m=mode: self.leaves(scope, x, m, depth, seen, comp_env)
         name = dotted_name(fn) or ""
+        if name == "getattr" and len(c.args) >= 2 and isinstance(c.args[1], ast.Constant) and isinstance(c.args[1].value, str):
+            # getattr(x, "f"[, default]) is the attribute x.f (or the default)
+            out = L(ast.copy_location(ast.Attribute(value=c.args[0], attr=c.args[1].value, ctx=ast.Load()), c))
+            if len(c.args) > 2:
+                out |= L(c.args[2])
+            return out
         if isinstance(fn, ast.Name):
             # local alias of a sanitiser:  qi = self.quote_identifier
             for s in self._scopes(scope):
